@@ -24,12 +24,17 @@ type call struct {
 	Kind string `json:"kind"` // metric | field | tagkey | tagvalue | flush | prepare
 	NS   string `json:"ns,omitempty"`
 	Name string `json:"name,omitempty"`
-	// for field/tagkey: metric is the pre-created metric "pre"; for tagvalue: tag key "prekey"
+	// for field/tagkey: metric is the pre-created metric "pre"; for tagvalue: tag key "prekey" (Key 0) or one of two more
+	// pre-created tag keys (Key 1, 2): every tag key has a bucket of its own in the tag value dictionary
+	Key int `json:"key,omitempty"`
 }
 
 func (c call) key() string {
 	if c.Kind == "getmetric" { // a read-only lookup answers for the same name as the get-or-create call
 		return "metric:" + c.NS + "/" + c.Name
+	}
+	if c.Key > 0 {
+		return fmt.Sprintf("%s:%s/k%d/%s", c.Kind, c.NS, c.Key, c.Name)
 	}
 	return c.Kind + ":" + c.NS + "/" + c.Name
 }
@@ -77,6 +82,11 @@ var scenarios = []scenario{
 		Threads: [][]call{{{Kind: "tagvalue", Name: "new"}, {Kind: "prepare"}, {Kind: "flush"}}, {{Kind: "tagvalue", Name: "old"}, {Kind: "tagvalue", Name: "old"}}}},
 	{Name: "persisted-metrics-second-flush", Pre: []call{{Kind: "metric", NS: "ns", Name: "old"}}, PreFlush: true,
 		Threads: [][]call{{{Kind: "metric", NS: "ns", Name: "m"}, {Kind: "prepare"}, {Kind: "flush"}}, {{Kind: "metric", NS: "ns", Name: "old"}, {Kind: "metric", NS: "ns", Name: "old"}}}},
+	// a lookup that holds a cached bucket of the tag value dictionary (tag key 0) while a flush purges the cache and
+	// another lookup loads the bucket of another tag key, in which the same value has another id
+	{Name: "cached-bucket-vs-purge", Pre: []call{{Kind: "tagvalue", Name: "x"}, {Kind: "tagvalue", Name: "a"}, {Kind: "tagvalue", Name: "a", Key: 2}}, PreFlush: true,
+		Threads: [][]call{{{Kind: "tagvalue", Name: "a"}, {Kind: "tagvalue", Name: "a"}},
+			{{Kind: "tagvalue", Name: "new", Key: 1}, {Kind: "prepare"}, {Kind: "flush"}, {Kind: "tagvalue", Name: "a", Key: 2}}}},
 	{Name: "tagvalue-vs-flush", Pre: []call{{Kind: "tagvalue", Name: "old"}},
 		Threads: [][]call{{{Kind: "tagvalue", Name: "a"}}, {{Kind: "prepare"}, {Kind: "flush"}}, {{Kind: "tagvalue", Name: "a"}, {Kind: "tagvalue", Name: "old"}}}},
 }
@@ -92,6 +102,7 @@ type world struct {
 	db      index.MetricMetaDatabase
 	preMet  metric.ID
 	preKey  tag.KeyID
+	preKeys [3]tag.KeyID
 	results []result
 }
 
@@ -122,7 +133,7 @@ func (x *world) do(c call) {
 		k, err = x.db.GenTagKeyID(x.preMet, []byte(c.Name))
 		id = uint32(k)
 	case "tagvalue":
-		id, err = x.db.GenTagValueID(x.preKey, []byte(c.Name))
+		id, err = x.db.GenTagValueID(x.preKeys[c.Key], []byte(c.Name))
 	case "prepare":
 		x.db.PrepareFlush()
 		return
@@ -164,6 +175,18 @@ func setup(sc scenario) {
 			vevid.OpFailed("pre key: %v", err)
 		}
 		w.preKey = k
+		w.preKeys[0] = k
+		for i := 1; i <= 2; i++ {
+			extra := false
+			for _, c := range append(append([]call{}, sc.Pre...), flatten(sc.Threads)...) {
+				extra = extra || c.Key == i
+			}
+			if extra {
+				if w.preKeys[i], err = db.GenTagKeyID(m, []byte(fmt.Sprintf("prekey%d", i))); err != nil {
+					vevid.OpFailed("pre key: %v", err)
+				}
+			}
+		}
 	}
 	for _, c := range sc.Pre {
 		w.do(c)
